@@ -78,6 +78,7 @@ fixed('C15', 'create_matching_kernel accepts', "create_matching_kernel(int PSFs)
 # ---- C17 / C18
 fixed('C17', 'centroid_sources no longer', "centroid_sources(error=... or xpeak=/ypeak=) with >= 2 positions: NaN from the second source on (keyword dict reused across sources)")
 fixed('C18', 'make_model_image attaches', "make_model_image: unit-ful model with row 0 off the image raised UnitTypeError (units attached only when i == 0)")
+fixed('C18', 'sources just outside the left/bottom', "make_model_image(shape, model, table) with a source whose rendering window ends exactly at pixel 0 (e.g. x_0=-3, model_shape=(5,5)) raised ValueError (ambiguous truth value: ndarray shape handed to astropy overlap_slices) instead of skipping the source")
 # ---- C19
 fixed('C19', 'profile normalize/unnormalize', "RadialProfile.normalize(); first read of data_profile afterwards returned raw values; unnormalize() did not restore gaussian_*")
 json.dump({'comment': 'Committed list of genuine defects of astropy/photutils found by the checks. status=known entries are matched by key '
